@@ -96,6 +96,18 @@ func (ck *Checker) stubOverlay(scratch string, in *Instance) (map[string]string,
 	}
 	out := map[string]string{}
 	files := map[string]bool{}
+	if in.stubSet["bgo"] {
+		filepath.Walk(ck.repo, func(p string, info os.FileInfo, err error) error {
+			if err != nil || info.IsDir() || !strings.HasSuffix(p, ".go") || strings.HasSuffix(p, "_test.go") || strings.Contains(filepath.Base(p), "zz_") {
+				return nil
+			}
+			b, _ := os.ReadFile(p)
+			if bytes.Contains(b, []byte("time.Sleep(")) {
+				files[p] = true
+			}
+			return nil
+		})
+	}
 	for f := range randFiles {
 		files[f] = true
 	}
@@ -153,6 +165,20 @@ func (ck *Checker) stubOverlay(scratch string, in *Instance) (map[string]string,
 				if call, ok := c.Node().(*ast.CallExpr); ok {
 					if sel, ok := call.Fun.(*ast.SelectorExpr); ok && sel.Sel.Name == "Now" {
 						if id, ok := sel.X.(*ast.Ident); ok && id.Name == "time" && len(call.Args) == 0 {
+							sel.X = ast.NewIdent("zzverif")
+							changed = true
+						}
+					}
+				}
+				return true
+			}, nil)
+		}
+		if in.stubSet["bgo"] && bytes.Contains(src, []byte("time.Sleep(")) {
+			// background goroutines sleep on the harness's clock: zzverif.Sleep parks them until zzverif.Background wakes them
+			astutil.Apply(af, func(c *astutil.Cursor) bool {
+				if call, ok := c.Node().(*ast.CallExpr); ok {
+					if sel, ok := call.Fun.(*ast.SelectorExpr); ok && sel.Sel.Name == "Sleep" {
+						if id, ok := sel.X.(*ast.Ident); ok && id.Name == "time" && len(call.Args) == 1 {
 							sel.X = ast.NewIdent("zzverif")
 							changed = true
 						}
